@@ -39,6 +39,8 @@ type psExec struct {
 	ctxDead map[int]bool            // ctx -> its cancellation has been announced
 	autoSub map[string]bool         // subscribers whose iterator is never run
 	sendSeq map[string]int
+	seqs    map[string]func(func(int) bool) // iterators that were not run when they were made
+	seqCtx  map[string]int
 }
 
 func (x *psExec) ctx(i int) context.Context {
@@ -140,8 +142,34 @@ func (x *psExec) do(g string, op POp) {
 		x.autoSub[g] = true
 		r.Call(g, "Sub", "auto", true, "dead", x.ctxDead[op.Ctx])
 		x.mu.Unlock()
-		p := safeCall(func() { _ = x.ps.SubscribeContext(x.ctx(op.Ctx)) })
+		p := safeCall(func() {
+			seq := x.ps.SubscribeContext(x.ctx(op.Ctx))
+			x.mu.Lock()
+			x.seqs[g], x.seqCtx[g] = seq, op.Ctx
+			x.mu.Unlock()
+		})
 		r.Ret(g, "Sub", "r", cls(nil, p), "msg", p)
+	case "latenil":
+		// the iterator made earlier (and never run) is invoked now, with a nil yield function: it must panic, and the
+		// subscription must be withdrawn exactly once - by this call if the context is still live, not again otherwise
+		x.mu.Lock()
+		seq, ctxID := x.seqs[g], x.seqCtx[g]
+		delete(x.seqs, g)
+		if seq == nil {
+			x.mu.Unlock()
+			return
+		}
+		x.mu.Unlock()
+		ctl.Gate("drv.call")
+		x.mu.Lock()
+		if x.ctxSubs[ctxID][g] {
+			delete(x.ctxSubs[ctxID], g)
+			delete(x.autoSub, g)
+			r.Add(rec.Ev{"ev": "wd", "gs": []string{g}, "auto": []string{g}})
+		}
+		x.mu.Unlock()
+		p := safeCall(func() { seq(nil) })
+		r.Add(rec.Ev{"ev": "latenil", "g": g, "panicked": p != ""})
 	case "cancel":
 		if op.Ctx <= 0 || op.Ctx >= len(x.cancels) {
 			return
@@ -189,7 +217,7 @@ func genPSScenario(rng *rand.Rand, profile, mode string) any {
 		}
 		if rng.Intn(3) == 0 {
 			// a SubscribeContext arriving during those Sends with a context that is being cancelled
-			sc.Drivers, sc.Names = append(sc.Drivers, []POp{{K: "nop", N: rng.Intn(12)}, {K: "subctx", Ctx: 1}}), append(sc.Names, "U9")
+			sc.Drivers, sc.Names = append(sc.Drivers, []POp{{K: "nop", N: rng.Intn(12)}, {K: "subctx", Ctx: 1}, {K: "nop", N: rng.Intn(12)}, {K: "latenil"}}), append(sc.Names, "U9")
 			sc.Drivers, sc.Names = append(sc.Drivers, []POp{{K: "nop", N: rng.Intn(12)}, {K: "cancel", Ctx: 1}}), append(sc.Names, "X1")
 		}
 		return sc
@@ -224,8 +252,11 @@ func genPSScenario(rng *rand.Rand, profile, mode string) any {
 		case r < 9: // iterator
 			ops = append(ops, POp{K: "nop", N: rng.Intn(8)}, POp{K: "iter", N: 1 + rng.Intn(3), Ctx: 1 + rng.Intn(2)})
 			usedCtx = true
-		default: // iterator never run
+		default: // iterator never run (or only much later, with a nil yield function)
 			ops = append(ops, POp{K: "nop", N: rng.Intn(8)}, POp{K: "subctx", Ctx: 1 + rng.Intn(2)})
+			if rng.Intn(2) == 0 {
+				ops = append(ops, POp{K: "nop", N: rng.Intn(12)}, POp{K: "latenil"})
+			}
 			usedCtx = true
 		}
 		sc.Drivers = append(sc.Drivers, ops)
@@ -241,7 +272,8 @@ func genPSScenario(rng *rand.Rand, profile, mode string) any {
 func runPSExec(execID int, sci any, e *Env) []rec.Ev {
 	sc := sci.(*PScenario)
 	x := &psExec{e: e, ps: bigbuff.NewChanPubSub(make(chan int)), quit: make(chan struct{}),
-		ctxSubs: map[int]map[string]bool{}, ctxDead: map[int]bool{}, autoSub: map[string]bool{}, sendSeq: map[string]int{}}
+		ctxSubs: map[int]map[string]bool{}, ctxDead: map[int]bool{}, autoSub: map[string]bool{}, sendSeq: map[string]int{},
+		seqs: map[string]func(func(int) bool){}, seqCtx: map[string]int{}}
 	x.ctxs = make([]context.Context, sc.NCtx+1)
 	x.cancels = make([]context.CancelFunc, sc.NCtx+1)
 	for i := 1; i <= sc.NCtx; i++ {
